@@ -333,9 +333,10 @@ int mod_deregister(m_mod_t **mod, bool from_user) {
             
             /*
              * Destroy context if it is not looping and
-             * it has no more modules in it and is not a persistent ctx
+             * it has no more modules in it and is not a persistent ctx.
+             * Not when the module leaves to be replaced (m_mod_register() is about to put its successor in this very context).
              */
-            if (c->state == M_CTX_IDLE && m_map_len(c->modules) == 0 && !(c->flags & M_CTX_PERSIST)) {
+            if (from_user && c->state == M_CTX_IDLE && m_map_len(c->modules) == 0 && !(c->flags & M_CTX_PERSIST)) {
                 ret = m_ctx_deregister();
             }
         }
